@@ -60,6 +60,10 @@ inductive Body where
 structure Resp where
   type : Nat
   body : Body
+  /-- bytes of an attribute value that sit in the reply datagram's value field although the reply is a
+  rejection (the datagram has a fixed size: whatever `xcm_attr_get` wrote there travels to the client
+  unless `clear_attr` wipes it) -/
+  residue : Bytes := []
   deriving DecidableEq, Repr
 
 /-- what `xcm_attr_get(socket, name, &type, buf, CTL_ATTR_VALUE_MAX)` answered in-process -/
@@ -70,7 +74,9 @@ inductive InProc where
 
 /-- `process_get_attr` -/
 def processGetAttr (name : Bytes) (r : InProc) : Resp :=
-  if sensitive name then { type := tGetAttrRej, body := .rej Generated.EACCES }
+  if sensitive name then
+    -- xcm_attr_get has already copied the value into the reply; clear_attr zeroes the whole value field
+    { type := tGetAttrRej, body := .rej Generated.EACCES, residue := [] }
   else match r with
     | .ok t v => { type := tGetAttrCfm, body := .cfm t v }
     | .err e => { type := tGetAttrRej, body := .rej e }
@@ -100,6 +106,20 @@ def clientReceive (size type : Nat) (field : Bytes) (prevType : Nat)
   else .drop
 
 /-! ### session table -/
+
+/-- one control session: its descriptor (an identity) and the reply that is waiting to be sent -/
+structure Client where
+  id : Nat
+  pending : Option Resp
+  deriving DecidableEq, Repr
+
+/-- `remove_client`: the last client is moved (whole struct) into the freed slot -/
+def removeClient (cs : List Client) (i : Nat) : List Client :=
+  if i + 1 = cs.length then cs.dropLast
+  else match cs.getLast? with
+    | some last => (cs.set i last).dropLast
+    | none => cs
+
 
 inductive Ev where
   | connectAttempt      -- a client connects; accepted only while num_clients < MAX_CLIENTS
